@@ -5,6 +5,7 @@ import (
 	"go/ast"
 	"go/token"
 	"go/types"
+	"sort"
 	"strconv"
 	"strings"
 )
@@ -867,6 +868,185 @@ func checkC19(p *Prog, r *Report) {
 		})
 		r.Check(ok && n > 0, "findIfaceForIP compares addresses in one form", p.Pos(f.Body.Pos()), "String() == String()", why+": interface-scoped srflx / relay rules are skipped and a less specific rule decides the advertised address")
 	}
+	// ---- R19.11 the Networks restriction knows every network type ----------------------------------------------
+	r.Rule("R19.11", "The family restriction of a rule with a Networks list is computed per element by the authoritative classifiers (NetworkType.IsIPv4 / IsIPv6) or by an enumeration that puts each of the four network types into its own family: udp4 and tcp4 allow IPv4, udp6 and tcp6 allow IPv6, nothing else.", 2)
+	if f := p.Fn("newAddressRewriteMapper"); r.Anchor("newAddressRewriteMapper", f != nil) {
+		// the assignments of 'true' that end up in the two allow flags
+		sitesOf := func(field string) map[ast.Node]bool {
+			out := map[ast.Node]bool{}
+			for _, st := range p.StoresTo(f, field) {
+				as, ok := st.(*ast.AssignStmt)
+				if !ok || len(as.Lhs) != len(as.Rhs) {
+					continue
+				}
+				for i, l := range as.Lhs {
+					if !p.IsField(l, field) {
+						continue
+					}
+					if cv, isC := p.ConstVal(as.Rhs[i]); isC {
+						if cv == "true" {
+							out[as] = true
+						}
+						continue
+					}
+					if id, ok := unparen(as.Rhs[i]).(*ast.Ident); ok {
+						for _, d := range p.leafDefs(f, p.ObjOf(id), 0, map[types.Object]bool{}) {
+							if d.Rhs != nil {
+								if cv, isC := p.ConstVal(d.Rhs); isC && cv == "true" && d.Node != nil {
+									out[d.Node] = true
+								}
+							}
+						}
+					}
+				}
+			}
+			return out
+		}
+		v4, v6 := sitesOf("addressRewriteRuleMapping.allowIPv4"), sitesOf("addressRewriteRuleMapping.allowIPv6")
+		// the loop over the Networks list and its element
+		var loop *ast.RangeStmt
+		walkBody(f, func(x ast.Node) bool {
+			if rs, ok := x.(*ast.RangeStmt); ok && loop == nil && typeStr(p.TypeOf(rs.X)) == "[]ice.NetworkType" {
+				loop = rs
+			}
+			return true
+		})
+		if r.Check(loop != nil && len(v4) > 0 && len(v6) > 0, "Networks restriction: loop and flag sites", p.Pos(f.Body.Pos()), fmt.Sprintf("%d IPv4 and %d IPv6 sites", len(v4), len(v6)), "the loop over a rule's Networks or the assignments that allow a family were not found") {
+			isElem := func(e ast.Expr) bool {
+				e = unparen(e)
+				if loop.Value != nil {
+					if v, ok := loop.Value.(*ast.Ident); ok && p.isObj(e, p.ObjOf(v)) {
+						return true
+					}
+				}
+				if ix, ok := e.(*ast.IndexExpr); ok && p.Canon(ix.X) == p.Canon(loop.X) {
+					return true
+				}
+				return false
+			}
+			all := []string{"NetworkTypeUDP4", "NetworkTypeTCP4", "NetworkTypeUDP6", "NetworkTypeTCP6"}
+			isV4 := map[string]bool{"NetworkTypeUDP4": true, "NetworkTypeTCP4": true}
+			// which sites run for a given constant: a small evaluator over the loop body
+			var run func(list []ast.Stmt, c string, hit map[ast.Node]bool) bool
+			holds := func(cond ast.Expr, c string) (bool, bool) {
+				cond = unparen(cond)
+				neg := false
+				if u, ok := cond.(*ast.UnaryExpr); ok && u.Op == token.NOT {
+					cond, neg = unparen(u.X), true
+				}
+				switch x := cond.(type) {
+				case *ast.CallExpr:
+					if sel, ok := unparen(x.Fun).(*ast.SelectorExpr); ok && isElem(sel.X) {
+						switch p.CalleeName(x) {
+						case "ice.NetworkType.IsIPv4":
+							return isV4[c] != neg, true
+						case "ice.NetworkType.IsIPv6":
+							return !isV4[c] != neg, true
+						}
+					}
+				case *ast.BinaryExpr:
+					if x.Op == token.EQL || x.Op == token.NEQ {
+						var k string
+						switch {
+						case isElem(x.X):
+							k = p.constName(unparen(x.Y))
+						case isElem(x.Y):
+							k = p.constName(unparen(x.X))
+						}
+						if k != "" {
+							return ((k == c) == (x.Op == token.EQL)) != neg, true
+						}
+					}
+					if x.Op == token.LOR {
+						a, ok1 := holdsRec(x.X, c, isElem, p, isV4)
+						b, ok2 := holdsRec(x.Y, c, isElem, p, isV4)
+						return (a || b) != neg, ok1 && ok2
+					}
+				}
+				return false, false
+			}
+			understood := true
+			run = func(list []ast.Stmt, c string, hit map[ast.Node]bool) bool {
+				for _, st := range list {
+					switch x := st.(type) {
+					case *ast.AssignStmt:
+						hit[x] = true
+					case *ast.IfStmt:
+						if x.Init != nil {
+							understood = false
+						}
+						v, ok := holds(x.Cond, c)
+						if !ok {
+							understood = false
+							continue
+						}
+						if v {
+							run(x.Body.List, c, hit)
+						} else if x.Else != nil {
+							switch e := x.Else.(type) {
+							case *ast.BlockStmt:
+								run(e.List, c, hit)
+							case *ast.IfStmt:
+								run([]ast.Stmt{e}, c, hit)
+							}
+						}
+					case *ast.SwitchStmt:
+						if x.Tag == nil || !isElem(x.Tag) || x.Init != nil {
+							understood = false
+							continue
+						}
+						var def *ast.CaseClause
+						matched := false
+						for _, cl := range x.Body.List {
+							cc := cl.(*ast.CaseClause)
+							if cc.List == nil {
+								def = cc
+								continue
+							}
+							for _, e := range cc.List {
+								if p.constName(unparen(e)) == c && !matched {
+									matched = true
+									run(cc.Body, c, hit)
+								}
+							}
+						}
+						if !matched && def != nil {
+							run(def.Body, c, hit)
+						}
+					case *ast.BlockStmt:
+						run(x.List, c, hit)
+					case *ast.ExprStmt, *ast.EmptyStmt, *ast.BranchStmt:
+					default:
+						understood = false
+					}
+				}
+				return true
+			}
+			var bad []string
+			for _, c := range all {
+				hit := map[ast.Node]bool{}
+				run(loop.Body.List, c, hit)
+				got4, got6 := false, false
+				for n := range hit {
+					if v4[n] {
+						got4 = true
+					}
+					if v6[n] {
+						got6 = true
+					}
+				}
+				if got4 != isV4[c] || got6 != !isV4[c] {
+					bad = append(bad, fmt.Sprintf("%s allows IPv4=%v IPv6=%v", c, got4, got6))
+				}
+			}
+			sort.Strings(bad)
+			if !understood {
+				r.Unknown("Networks restriction: each network type in its family", p.Pos(loop.Pos()), "the loop body contains a construct the family evaluator does not interpret")
+			} else {
+				r.Check(len(bad) == 0, "Networks restriction: each network type in its family", p.Pos(loop.Pos()), "udp4/tcp4 -> IPv4, udp6/tcp6 -> IPv6", strings.Join(bad, "; ")+": a rule restricted to that network type does not apply to (or wrongly applies to) addresses of the family, or is dropped at construction")
+			}
+		}
+	}
 }
 
 // guardLeadsToError: wherever a fact accepted by guard is established in f, every path from
@@ -913,4 +1093,40 @@ func (p *Prog) guardLeadsToError(f *Func, guard func(Fact) bool, sentinel string
 		}
 	}
 	return true
+}
+
+
+// holdsRec: a disjunct of a family condition (helper of R19.11).
+func holdsRec(cond ast.Expr, c string, isElem func(ast.Expr) bool, p *Prog, isV4 map[string]bool) (bool, bool) {
+	cond = unparen(cond)
+	switch x := cond.(type) {
+	case *ast.CallExpr:
+		if sel, ok := unparen(x.Fun).(*ast.SelectorExpr); ok && isElem(sel.X) {
+			switch p.CalleeName(x) {
+			case "ice.NetworkType.IsIPv4":
+				return isV4[c], true
+			case "ice.NetworkType.IsIPv6":
+				return !isV4[c], true
+			}
+		}
+	case *ast.BinaryExpr:
+		if x.Op == token.EQL {
+			var k string
+			switch {
+			case isElem(x.X):
+				k = p.constName(unparen(x.Y))
+			case isElem(x.Y):
+				k = p.constName(unparen(x.X))
+			}
+			if k != "" {
+				return k == c, true
+			}
+		}
+		if x.Op == token.LOR {
+			a, ok1 := holdsRec(x.X, c, isElem, p, isV4)
+			b, ok2 := holdsRec(x.Y, c, isElem, p, isV4)
+			return a || b, ok1 && ok2
+		}
+	}
+	return false, false
 }
